@@ -467,8 +467,16 @@ mod exec {
                     _ => false,
                 }
             }
+            // sh would read these as syntax, not as a name, when they come first
+            fn reserved_word(s: &str) -> bool {
+                matches!(
+                    s,
+                    "case" | "do" | "done" | "elif" | "else" | "esac" | "fi" | "for" | "if" | "in"
+                        | "then" | "until" | "while"
+                )
+            }
             // the empty string must be quoted as well, or it would vanish
-            if s.is_empty() || !s.chars().all(nice_char) {
+            if s.is_empty() || !s.chars().all(nice_char) || reserved_word(s) {
                 Cow::Owned(format!("'{}'", s.replace("'", r#"'\''"#)))
             } else {
                 Cow::Borrowed(s)
